@@ -22,9 +22,9 @@ def jobs_list(only):
     for name in sorted(os.listdir(os.path.join(ROOT, "seeded"))):
         d = os.path.join(ROOT, "seeded", name)
         meta = json.load(open(os.path.join(d, "meta.json")))
-        if meta.get("neutralised"):
+        if meta.get("neutralised") or "neutralised" in str(meta.get("confirmed", "")):
             continue
-        checks = [c for c, runs in meta.get("checks_run", {}).items() if all(r["status"] == "DETECTED" for r in runs)]
+        checks = [c for c, runs in meta.get("checks_run", {}).items() if isinstance(runs, list) and all(r["status"] == "DETECTED" for r in runs)]
         if checks and (not only or name in only):
             out.append((name, os.path.join(d, "patch.diff"), checks))
     for fn in sorted(os.listdir(os.path.join(ROOT, "mutants"))):
